@@ -156,7 +156,7 @@ Proof.
   intros Ea Eh Ee. apply J_frame; auto.
   - intros x _ _ H. rewrite Ee, Eh. auto.
   - unfold published. rewrite Ee. trivial.
-  - intros x s _. rewrite Eh. auto.
+  - intros x s _. rewrite Ee, Eh. auto.
   - intros x s _. rewrite Eh. lia.
 Qed.
 
@@ -236,7 +236,7 @@ Proof.
     + intros x Hx _ _. rewrite Ee, Eh, hupd_other; [auto using (owns_live _ _ _ _ HC _ _ (co_J _ _ _ _ HC t') Hx)|].
       intros ->. apply (co_excl _ _ _ _ HC t t' n); auto.
     + unfold published. rewrite Ee. trivial.
-    + intros x s Hx. left. rewrite Hc by (apply in_app_l; exact Hx). reflexivity.
+    + intros x s Hx. rewrite Ee. split; [reflexivity|]. left. rewrite Hc by (apply in_app_l; exact Hx). reflexivity.
     + intros x s Hx. rewrite Eh, hupd_other by (eapply published_ne; eauto). lia.
     + apply (co_J _ _ _ _ HC).
   - intros t' x Hne A B. rewrite Ho' in A. inversion A; subst x. apply (co_excl _ _ _ _ HC t t' n); auto.
@@ -299,7 +299,7 @@ Proof.
       destruct (Eo x H) as [-> ->]. auto.
     + unfold published. intros x [H|[H|H]]; auto. right. right.
       rewrite (proj1 (Eo x ltac:(apply Na; rewrite H; discriminate))). exact H.
-    + intros x s Hx. left. rewrite Hc by (apply in_app_l; exact Hx). reflexivity.
+    + intros x s Hx. split; [apply Eo; intros ->; apply Nc; apply in_app_l; exact Hx|]. left. rewrite Hc by (apply in_app_l; exact Hx). reflexivity.
     + intros x s Hx. assert (x <> a).
       { destruct Hx as [H|[H|H]]; [intros ->; apply Nc; apply in_app_l; exact H
                                    |intros ->; apply Nc; apply in_app_r; exact H|apply Na; rewrite H; discriminate]. }
@@ -364,7 +364,7 @@ Proof.
         right. left. rewrite Ep in H. apply in_app_or in H. apply in_or_app. cbn [In] in H.
         destruct H as [H|[H|H]]; auto. congruence.
       * right. right. rewrite eupd_other; [exact H|]. intros ->. congruence.
-    + intros x s' Hx. left. rewrite Hc by (intros ->; auto). reflexivity.
+    + intros x s' Hx. cbn [fl_free epoch]. rewrite eupd_other by (intros ->; auto). split; [reflexivity|]. left. rewrite Hc by (intros ->; auto). reflexivity.
     + intros x s' _. cbn [fl_free heap]. unfold hupd. destruct (x =? a) eqn:E; [|lia].
       apply N.eqb_eq in E. subst x. destruct s'; cbn; lia.
     + apply (co_J _ _ _ _ HC).
@@ -432,6 +432,7 @@ Proof.
     + intros x Hx _ Ex. rewrite Ee. split; [exact Ex|]. apply Ho'. intros ->.
       exact (owns_notin_c _ _ _ _ HC _ _ (co_J _ _ _ _ HC t') Hx Hp).
     + unfold published. rewrite Ee. trivial.
+    + intros x s' Hx. rewrite Ee. split; [reflexivity|]. apply CH. exact Hx.
     + intros x s' _. destruct (N.eq_dec x p) as [->|Hne']; [|rewrite Ho' by exact Hne'; lia].
       destruct (side_cases s s') as [->| ->].
       * rewrite Hpp, outward_set_outward. cbn [ltag]. lia.
@@ -889,7 +890,7 @@ Proof.
   - apply N.eqb_eq in EL. unfold J. cbn [goto dpc]. split; [exact HK|]. split; [exact HS|].
     intros EA n p r V. destruct (Hsec EA) as [r' V']. rewrite V in V'. injection V' as -> -> _. exact EL.
   - apply N.eqb_neq in EL. unfold J. cbn [goto dpc]. split; [exact HK|]. split; [exact HS|]. split; [exact Hsec|].
-    split; [exact EL|]. intros _. left. reflexivity.
+    split; [exact EL|]. intros _. split; [left; reflexivity|reflexivity].
 Qed.
 
 Lemma step_S4 g (ls : locals dq_local) t c pend k s lrs prev pn e :
@@ -903,7 +904,7 @@ Proof.
   - apply anchor_eqb_eq in EA. subst lrs. cbn [fst snd]. apply tau_local; auto; [|kownsame].
     unfold J. cbn [goto dpc]. split; [exact HK|]. split; [exact HS|]. split; [exact Hsec|]. split; [exact Np|].
     split; [left; apply (second_in _ _ _ _ (Hsec eq_refl))|].
-    destruct (Hl' eq_refl) as [H|H]; [left; auto|right; exact H].
+    destruct (Hl' eq_refl) as [[H|H] Ee]; [left; auto|right; exact H].
   - apply tau_resume; auto. rewrite PC. reflexivity.
 Qed.
 
@@ -929,7 +930,7 @@ Proof.
   assert (Hl : lin_event t g (ls t) = []) by linnil PC.
   destruct (link_eqb (outward s (heap g (lptr prev))) pn) eqn:EL.
   2:{ apply tau_resume; auto. rewrite PC. reflexivity. }
-  apply link_eqb_eq in EL. destruct Hl' as [[EA _]|Hlt]; [|unfold lnk_lt in Hlt; rewrite EL in Hlt; lia].
+  apply link_eqb_eq in EL. destruct Hl' as [(EA & _ & Eep)|Hlt]; [|unfold lnk_lt in Hlt; rewrite EL in Hlt; lia].
   subst lrs. destruct (Hsec eq_refl) as [r V]. destruct HS as (Sn & St & Nz). cbn [fst snd].
   set (p := lptr prev) in *. set (n := aend s (anc g)) in *.
   set (g' := set_aba _ _).
@@ -1000,4 +1001,20 @@ Proof.
   - eapply step_S4; eauto.
   - eapply step_S5; eauto.
   - eapply step_S6; eauto.
+Qed.
+
+(* under the no-reuse invariant no step raises the model's [aba] flag: a link CAS succeeds only
+   while its snapshot is current, and then the target's epoch is the one read at S3 *)
+Lemma step_aba_noreuse t g (ls : locals dq_local) c pend :
+  Core g ls c pend -> aba (fst (dq_tstep tt t g (ls t))) = aba g.
+Proof.
+  intros HC.
+  assert (FA : aba (fst (fl_alloc g)) = aba g) by (unfold fl_alloc; destruct (pool g =? 0); reflexivity).
+  casepc (ls t); unfold dq_tstep; rewrite PC.
+  16:{ pcfacts HC t PC HJ. destruct HJ as (_ & _ & _ & _ & _ & Hl').
+       destruct (link_eqb (outward s (heap g (lptr prev))) pn) eqn:EL; [|rewrite resume_g; reflexivity].
+       apply link_eqb_eq in EL. destruct Hl' as [(_ & _ & Ee)|Hlt]; [|unfold lnk_lt in Hlt; rewrite EL in Hlt; lia].
+       cbn [fst set_aba aba]. rewrite Ee, N.eqb_refl. cbn. apply orb_false_r. }
+  all: unfold pop_load, push_load, resume; destruct (fl_alloc g) as [g1 a1]; cbn [fst] in FA;
+    repeat (match goal with |- context [match ?x with _ => _ end] => destruct x end); cbn; auto.
 Qed.
